@@ -93,6 +93,7 @@ def jobs(tier, seed):
     k, pawns = (2, 4) if tier == "thorough" else (1, 2)
     t = 7200 if tier == "thorough" else 2400
     js = [
+        Job("c03_lookup_injective", "the component look-up functions give distinct non-zero words for distinct features (real tables)", timeout=1200, mem_gb=12),
         Job("c03_delta_null", "any material, any key: null move changes the key by side + ep components; undo restores", timeout=t, mem_gb=16, checks="functional", witness=False),
     ]
     for kind in range(6):
